@@ -308,6 +308,9 @@ func init() {
 		"encoding/json.Valid": func(fr *frame, a []value) value { return json.Valid(bytesOf(a[0])) },
 
 		// ---- logging: formatting is never the subject ----
+		// debugging aid of cmd/olareg (SIGUSR1 stack dump): a goroutine parked forever on a
+		// real signal channel; not part of any property
+		"github.com/olareg/olareg/internal/godbg.SignalTrace": func(fr *frame, a []value) value { return nil },
 		"log/slog.New":     func(fr *frame, a []value) value { return (*value)(nil) },
 		"log/slog.Default": func(fr *frame, a []value) value { return (*value)(nil) },
 	} {
